@@ -260,6 +260,9 @@ def handle (line : String) : String :=
     | "none", _ => "none"
     | _, "none" => "ill-typed"
     | _, s => s
+  | ["ndmatmul", l, r] => match l.toNat?, r.toNat? with
+    | some a, some b => toString (HailVerif.FnRegistry.matMulNDims a b)
+    | _, _ => "parse-error rank"
   | ["echo", t] => t
   | _ => "bad-op"
 
